@@ -91,7 +91,7 @@ func (c *CSVFile) RenderStyle(style, eol string) {
 	c.Text = sb.String()
 }
 
-var headerPool = []string{"a", "B", "Col C", "d-e", "F1", "über", "ÜBER2", "9lives", "x.y", "Name", "city name", "ZIP", "q?", "tab\there", "日本", "k", "İ", "Temp \u212a", "snake_case", "MiXeD", "  pad  ", "a\"b", "h,i"}
+var headerPool = []string{"", "123", "\ufeffbom", "__", "a", "B", "Col C", "d-e", "F1", "über", "ÜBER2", "9lives", "x.y", "Name", "city name", "ZIP", "q?", "tab\there", "日本", "k", "İ", "Temp \u212a", "snake_case", "MiXeD", "  pad  ", "a\"b", "h,i"}
 
 // csvFields are field contents: the hostile pool minus CR (encoding/csv normalises CRLF).
 func csvField(rng *rand.Rand, hostile bool, card int) string {
@@ -104,6 +104,9 @@ func csvField(rng *rand.Rand, hostile bool, card int) string {
 		}
 	}
 	k := rng.Intn(card)
+	if hostile && rng.Intn(400) == 0 {
+		return strings.Repeat("long field ", 9000) + itoa(k) // ~100 KB in one field
+	}
 	switch rng.Intn(7) {
 	case 0:
 		return "v" + itoa(k)
@@ -156,8 +159,13 @@ func MakeCSV(rng *rand.Rand, n, maxCols int, hostile bool) *CSVFile {
 func CSVWithValues(n int, cards []int) *CSVFile {
 	c := &CSVFile{}
 	for k := range cards {
-		c.Header = append(c.Header, "c"+string(rune('a'+k)))
-		c.Columns = append(c.Columns, "c"+string(rune('a'+k)))
+		// letters only (the CLI's header normalisation leaves such names alone): ca..cz, then caa, cab, ...
+		name := "c" + string(rune('a'+k%26))
+		if k >= 26 {
+			name = "c" + string(rune('a'+k/26-1)) + string(rune('a'+k%26))
+		}
+		c.Header = append(c.Header, name)
+		c.Columns = append(c.Columns, name)
 	}
 	for i := 0; i < n; i++ {
 		rec := make([]string, len(cards))
